@@ -127,6 +127,13 @@ EXPRS += [
     ("expr", "src/collections/vec.rs", "drain", ("assert", 1), "vec_drain_ordered"),
     ("expr", "src/collections/vec.rs", "drain", ("assert", 2), "vec_drain_in_range"),
     ("expr", "src/collections/vec.rs", "drain", ("field", "tail_len", 1), "vec_drain_tail_len"),
+    # push / pop / append_elements: the "must grow" test, where the new element goes, what append reserves and copies
+    ("expr", "src/collections/vec.rs", "push", ("if", 1), "vec_push_must_grow"),
+    ("expr", "src/collections/vec.rs", "push", ("let", "end", 1), "vec_push_slot"),
+    ("expr", "src/collections/vec.rs", "pop", ("if", 1), "vec_pop_empty"),
+    ("expr", "src/collections/vec.rs", "append_elements", ("arg", "reserve", 1, 0), "vec_append_reserves", ("count",)),
+    ("expr", "src/collections/vec.rs", "append_elements", ("arg", "copy_nonoverlapping", 1, 1), "vec_append_copy_dst", ("count",)),
+    ("expr", "src/collections/vec.rs", "append_elements", ("arg", "copy_nonoverlapping", 1, 2), "vec_append_copy_len", ("count",)),
     # Drain::drop: whether there is a tail to move back, whether it has to move, the memmove and the new length
     ("expr", "src/collections/vec.rs", "impl:Drop for Drain:drop", ("if", 1), "vec_drain_drop_has_tail"),
     ("expr", "src/collections/vec.rs", "impl:Drop for Drain:drop", ("if", 2), "vec_drain_drop_must_move"),
@@ -247,6 +254,17 @@ FRAMES = [
      "iftail!=start{letsrc=source_vec.as_ptr().add(tail);letdst=source_vec.as_mut_ptr().add(start);ptr::copy(src,dst,self.tail_len);}source_vec.set_len(start+self.tail_len);"),
     ("src/collections/vec.rs", "drain", "vec_drain_shortens_first",
      "self.set_len(start);"),
+    ("src/collections/vec.rs", "push", "vec_push_writes_then_counts",
+     "{ifself.len==self.buf.cap(){self.reserve(1);}unsafe{letend=self.buf.ptr().add(self.len);ptr::write(end,value);self.len+=1;}}"),
+    ("src/collections/vec.rs", "pop", "vec_pop_counts_then_reads",
+     "{ifself.len==0{None}else{unsafe{self.len-=1;Some(ptr::read(self.as_ptr().add(self.len())))}}}"),
+    ("src/collections/vec.rs", "swap_remove", "vec_swap_remove_moves_last_into_hole",
+     "{unsafe{lethole:*mutT=&mutself[index];letlast=ptr::read(self.get_unchecked(self.len-1));self.len-=1;ptr::replace(hole,last)}}"),
+    ("src/collections/vec.rs", "truncate", "vec_truncate_counts_before_each_drop",
+     "letmutlocal_len=SetLenOnDrop::new(&mutself.len);for_inlen..current_len{local_len.decrement_len(1);ptr=ptr.offset(-1);ptr::drop_in_place(ptr);}"),
+    ("src/collections/vec.rs", "append_elements", "vec_append_counts_after_copy",
+     "{letcount=(*other).len();self.reserve(count);letlen=self.len();ptr::copy_nonoverlapping(otheras*constT,self.as_mut_ptr().add(len),count);self.len+=count;}"),
+    ("src/collections/vec.rs", "append", "vec_append_empties_other", "{unsafe{self.append_elements(other.as_slice()as_);other.set_len(0);}}"),
     ("src/collections/vec.rs", "insert", "vec_insert_grows_then_writes",
      "iflen==self.buf.cap(){self.reserve(1);}unsafe{{letp=self.as_mut_ptr().add(index);ptr::copy(p,p.offset(1),len-index);ptr::write(p,element);}self.set_len(len+1);}"),
     ("src/collections/vec.rs", "remove", "vec_remove_reads_then_closes",
